@@ -265,12 +265,21 @@ def run(res, prop, tier, replay=None):
         hs = [[tuple(x) for x in h] for h in hs]
     else:
         hs = histories(seed, 3000 if thorough else 60)
+        if prop in ("C13", "C14", "C15"):
+            # the builds-over-a-used-directory part of those properties: histories whose builds succeed
+            # (setting changes, edits - also within the same tick - between valid versions)
+            hs = [h for h in hs if not any(op[0] in ("edit_g", "edit_g_same") and op[1] not in ("g1", "g2", "g3") or op[0] == "edit_l" and op[1] != "l1" for op in h)]
+            # same-tick edits first, then one history per setting, then the rest
+            same = [h for h in hs if any(op[0] == "edit_g_same" for op in h)]
+            rest = [h for h in hs if h not in same]
+            hs = (same[:(60 if thorough else 14)] + rest)[:(400 if thorough else 90)]
         if prop == "C03":
             hs = [h for h in hs if any(op[0] == "edit_g" and ("conf" in op[1] or "exp" in op[1] or "rr" in op[1] or "both" in op[1]) for op in h)]
     with concurrent.futures.ThreadPoolExecutor(max_workers=max(2, core.NCPU - 4)) as ex:
         traces = list(ex.map(lambda a: run_history(res.wd, "h%d" % a[0], a[1], gi, li), enumerate(hs)))
-    res.notes["histories"] = len(hs)
-    res.notes["builds"] = sum(sum(1 for x in t if '"ev": "build"' in x) for t in traces)
+    sub = prop not in ("C18", "C03")
+    res.notes["incremental_histories" if sub else "histories"] = len(hs)
+    res.notes["incremental_builds" if sub else "builds"] = sum(sum(1 for x in t if '"ev": "build"' in x) for t in traces)
     if not replay:
         # binding self-test: flip `regenerated' of a build
         st = None
@@ -285,7 +294,7 @@ def run(res, prop, tier, replay=None):
                     break
             if st:
                 break
-        res.notes["binding_selftest"] = st
+        res.notes["incremental_binding_selftest" if sub else "binding_selftest"] = st
         if st and not st["rejected"]:
             raise core.ToolError("binding self-test failed")
     n = 1 if replay else (12 if thorough else 4)
@@ -304,8 +313,9 @@ def run(res, prop, tier, replay=None):
         else:
             res.violation("trace rejected by the specification: " + (v["r"]["error"] or "not all events consumed")[:400],
                           dict(tlc_out=v["r"]["out"][-2000:]))
-    for h in hs[:3]:
-        res.sample(dict(history=h))
+    if not sub:
+        for h in hs[:3]:
+            res.sample(dict(history=h))
 
 
 def main(pid, tier, replay=None):
